@@ -23,8 +23,8 @@ Step(e) ==
     [] e.op = "iv" ->
          LET s == e.s en == e.e IN
          IF ~IValid(s, en) THEN Check(e.out # "ok", "construction_rejects_end_before_start")
-         ELSE /\ Check(e.out = "ok", "valid_interval_accepted")
-              /\ Check(e.has_start = (s # IMin) /\ e.has_end = (en # IMax), "has_start_has_end")
+         ELSE IF e.out # "ok" THEN Rej("valid_interval_accepted")
+         ELSE /\ Check(e.has_start = (s # IMin) /\ e.has_end = (en # IMax), "has_start_has_end")
               /\ Check(e.start_raises = (s = IMin) /\ e.end_raises = (en = IMax), "unbounded_end_refuses_to_yield_a_bound")
               /\ Check(e.duration_raises = (s = IMin \/ en = IMax), "unbounded_interval_refuses_a_duration")
               /\ (~e.duration_raises => Check(e.duration = Sub3(en, s), "duration_is_end_minus_start"))
